@@ -157,11 +157,18 @@ Definition get_dirty (a : astate) (x : addr) : option Z :=
   | Some i => d ← a_dirties a !! i; Some d.2
   | None => Some 0
   end.
-(* dirties = append(dirties[:idx], dirties[idx+1:]...); the index map is NOT re-indexed *)
+(* dirties = append(dirties[:idx], dirties[idx+1:]...); since fix 4b2faa6 the entries behind the
+   removed one are re-indexed *)
+Fixpoint reindex_d (l : list (addr * Z)) (i : nat) (m : gmap addr nat) : gmap addr nat :=
+  match l with
+  | [] => m
+  | (y, _) :: rest => reindex_d rest (S i) (<[y := i]> m)
+  end.
 Definition delete_dirty (a : astate) (x : addr) : option astate :=
   match a_jidx a !! x with
   | Some i => if decide (i < length (a_dirties a))%nat
-              then Some (w_dirties a (take i (a_dirties a) ++ drop (S i) (a_dirties a)) (delete x (a_jidx a)))
+              then Some (w_dirties a (take i (a_dirties a) ++ drop (S i) (a_dirties a))
+                                   (reindex_d (drop (S i) (a_dirties a)) i (delete x (a_jidx a))))
               else None
   | None => Some a
   end.
@@ -211,11 +218,10 @@ Definition get_or_new_obj (a : astate) (x : addr) : option (astate * obj) :=
 Definition so_set_balance (a : astate) (x : addr) (o : obj) (b : Z) : option astate :=
   a1 ← j_append a (EBalance x (o_bal o)); set_obj a1 x (set_bal o b).
 
-(* the same SetBalance called from inside journal.revert: the entry it appends lies beyond the
-   index the revert loop is at and is cut off by j.entries = j.entries[:snapshot]; what remains
-   of it is its addDirty *)
+(* balanceChange.revert / suicideChange.revert: since fix 4b2faa6 the balance is restored through
+   account.SetBalance, without journalling *)
 Definition so_set_balance_in_revert (a : astate) (x : addr) (o : obj) (b : Z) : option astate :=
-  a1 ← add_dirty a x; set_obj a1 x (set_bal o b).
+  set_obj a x (set_bal o b).
 
 (* createObjectChange.revert: remove the entry, shift the later ones left, re-index them *)
 Fixpoint reindex (l : list (addr * obj)) (i : nat) (m : gmap addr nat) : gmap addr nat :=
@@ -246,7 +252,7 @@ Definition revert_entry (a : astate) (e : entry) : option astate :=
       | Some o => let o' := set_suic o prev in a2 ← set_obj a1 x o'; so_set_balance_in_revert a2 x o' prevbal
       | None => Some a1
       end
-  | EBalance x prev => '(a1, o) ← live_obj a x; so_set_balance_in_revert a1 x o prev   (* SetBalance: journals again *)
+  | EBalance x prev => '(a1, o) ← live_obj a x; so_set_balance_in_revert a1 x o prev
   | ENonce x prev => '(a1, o) ← live_obj a x; set_obj a1 x (set_nonce o prev)
   | EStorage x k prev => '(a1, o) ← live_obj a x; o' ← obj_setstate o k prev; set_obj a1 x o'
   | ECode x ph pc => '(a1, o) ← live_obj a x; set_obj a1 x (set_code o ph pc)
